@@ -829,6 +829,9 @@ func (a *Analysis) ruleE1() {
 			}
 			for _, u := range a.Ef.AddrUse[g] {
 				c, ok := u.(ssa.CallInstruction)
+				if ok && a.LazyGuard[g] != nil && a.isLazyUse(u, g, true) {
+					continue // handed to the lazy-construction helper as its guard (T3)
+				}
 				if !ok || calleeName(c) != "(*sync.Once).Do" {
 					if !a.P.IsTestFunc(u.Parent()) {
 						r.Bad("E1", key, a.P.InstrPos(u), "", "the address of sync.Once %s is used other than as the receiver of Do", g.Name())
@@ -908,6 +911,9 @@ func (a *Analysis) ruleE1() {
 					break
 				}
 			}
+		}
+		if a.LazyGuard[g] != nil {
+			served++
 		}
 		if served == 0 {
 			r.Unk("E1", "guard-use/"+g.Name(), a.P.Pos(g.Pos()), "", "sync.Once %s does not guard a recognised map construction", g.Name())
@@ -1429,6 +1435,9 @@ func (a *Analysis) finishE1() {
 		if d.Guard != nil {
 			relied["E1val"][name(d.Guard)] = true
 		}
+	}
+	for g := range a.LazyGuard {
+		relied["E1val"][name(g)] = true
 	}
 	for g := range a.G.Lists {
 		relied["E1lst"][name(g)] = true
